@@ -43,6 +43,7 @@ var imports = map[string][]importSpec{
 		{"C15", `^C15\.string$`, ``, "a name field that overflows its 30 octets overwrites the neighbouring field of the encoding"},
 	},
 	"C03": {
+		{"C05", `^C05\.X3$`, `expires`, "Send succeeds only on an acknowledgement not consumed before and meant for its request: an acknowledgement nobody waited for is offered for one resend interval only, or it satisfies a later request that reuses the number (after a reconnect, after 256 requests)"},
 		{"C09", `^C09\.H7$`, `dials|starts the worker`, "the UDP exchange runs over a datagram socket and the TCP mode over a stream exactly as configured, on a connected tunnel"},
 		{"C02", `^C02\.layout$`, `knxnet\.TunnelRes|knxnet\.TunnelReq`, "the acknowledgement a sender waits for is decoded from the frame the gateway sent, the request is encoded as the gateway expects"},
 		{"C16", `^C16\.T3$`, `TunnelSocket`, "every (re)transmission leaves the socket as the bytes of that request: a send buffer shared between the tunnel's goroutines is torn by a concurrent acknowledgement or heartbeat"},
@@ -75,6 +76,7 @@ var imports = map[string][]importSpec{
 		{"C07", `^C07\.scale$`, ``, "encoder and decoder scale by inverse factors"},
 	},
 	"C07": {
+		{"C06", `^C06\.identity$`, ``, "decoding an encoding gives the value back only when encoder and decoder place every field in the same bits: a payload that changes when decoded and written back shows the two disagree"},
 		{"C08", `^C08\.range$`, `IsValid|DPT_10001|DPT_11001`, "encoders gate on IsValid: a validity predicate that rejects an in-range value makes it unencodable, one that accepts an out-of-range value yields an encoding the decoder rejects"},
 	},
 	"C09": {
@@ -125,6 +127,7 @@ var imports = map[string][]importSpec{
 		{"C09", `^C09\.H1$`, `keeps the caller's other settings`, "the connect request advertises the local endpoint when configured to: the configuration normaliser hands SendLocalAddress through"},
 	},
 	"C17": {
+		{"C12", `^C12\.in$`, `starts the forwarder|wires client`, "group events keep the order of the client's Inbound only when one forwarder drains it: the forwarder is wired to the client's channel and started exactly once with the client"},
 		{"C04", `^C04\.R2$`, ``, "a telegram is handed over once, when it is accepted: a repetition is not handed over again"},
 		{"C02", `^C02\.(layout|dispatch)$`, `^knxnet\.UnpackHeader|^knxnet\.Unpack `, "every frame is received through the header decoder and the service dispatcher"},
 		{"C04", `^C04\.R7$`, ``, "hand-over to Inbound: offered once, parked once, never dropped or duplicated"},
@@ -139,6 +142,7 @@ var imports = map[string][]importSpec{
 		{"C02", `^C02\.(layout|dispatch)$`, `^knxnet\.UnpackHeader|^knxnet\.Unpack `, "every frame is received through the header decoder and the service dispatcher"},
 		{"C01", `^C01\.c$`, kDiscovery, "a returned response owns its bytes (the socket's receive buffer is reused for whatever arrives next)"},
 		{"C16", `^C16\.T[12]$`, `serveUDPSocket`, "every response that arrives before the timeout is surfaced once, in arrival order"},
+		{"C02", `^C02\.tlv$`, ``, "a response is returned with the description blocks the server sent: the block loop of search and description responses walks the blocks by their announced lengths and fails on none that is well formed"},
 	},
 }
 
